@@ -269,6 +269,9 @@ def check_adf15(d, exp, root, bad):
     for b in blocks:
         c = cls_name[b["cls"]]
         try:
+            # the parser returns RecursiveDicts, which create missing entries on access: test membership explicitly
+            if key(b) not in rates[c][el][q] or key(b) not in wl[el][q]:
+                raise KeyError(key(b))
             t = rates[c][el][q][key(b)]
             w = wl[el][q][key(b)]
         except Exception:            # noqa: BLE001
